@@ -37,6 +37,9 @@ type Config struct {
 	MaxPaths int
 	// RootBind overrides the initial binding of the root function's receiver/params (by "$recv"/"$pN").
 	RootBind map[string]Val
+	// WatchLit: non-empty label => record the evaluation of a struct composite literal of type t
+	// (with its abstract field values) in the effect trace.
+	WatchLit func(t types.Type, fields map[string]Val) string
 }
 
 // State is the abstract state on one path.
@@ -1118,6 +1121,14 @@ func (in *Interp) evalExpr(g *core.Graph, e ast.Expr, st *State) []vs {
 				for i, n := range names {
 					sv.Fields[n] = r.vals[i]
 				}
+				if in.cfg.WatchLit != nil {
+					if label := in.cfg.WatchLit(t, sv.Fields); label != "" {
+						s2 := r.st.clone()
+						s2.Emit(label)
+						out = append(out, vs{sv, s2})
+						continue
+					}
+				}
 				out = append(out, vs{sv, r.st})
 			}
 			return out
@@ -1126,11 +1137,38 @@ func (in *Interp) evalExpr(g *core.Graph, e ast.Expr, st *State) []vs {
 	case *ast.TypeAssertExpr:
 		var out []vs
 		for _, b := range in.evalExpr(g, x.X, st) {
+			commaOK := false
 			if tv, ok := g.Info.Types[e]; ok {
 				if tup, ok := tv.Type.(*types.Tuple); ok && tup.Len() == 2 {
-					out = append(out, vs{Tuple{Top{}, Top{}}, b.st})
-					continue
+					commaOK = true
 				}
+			}
+			// precise cases: a constant whose type is the asserted type; nil with the comma-ok form
+			if x.Type != nil {
+				if at := g.Info.TypeOf(x.Type); at != nil {
+					switch v := b.v.(type) {
+					case Const:
+						if v.T != nil && types.Identical(v.T, at) {
+							if commaOK {
+								out = append(out, vs{Tuple{v, BoolVal(true)}, b.st})
+							} else {
+								out = append(out, vs{v, b.st})
+							}
+							continue
+						}
+					case Nil:
+						// a nil interface, or an interface holding a typed nil pointer: neither has a
+						// non-nilable dynamic type, so the assertion to such a type fails either way
+						if _, nilable := zeroOf(at).(Nil); commaOK && !nilable {
+							out = append(out, vs{Tuple{zeroOf(at), BoolVal(false)}, b.st})
+							continue
+						}
+					}
+				}
+			}
+			if commaOK {
+				out = append(out, vs{Tuple{Top{}, Top{}}, b.st})
+				continue
 			}
 			out = append(out, vs{Top{}, b.st})
 		}
